@@ -494,7 +494,67 @@ def oracle_C01(hi, ops, obs):
         if out: break
     return out
 
+ORACLES_PRE = None
+
+def _all_leaves(m):
+    """leaves at any wrapping depth (exec, group and gov proposals unwrapped)"""
+    if m.kind in ('EXEC', 'GROUPPROP', 'GOVPROP'):
+        out = []
+        for x in m.sub: out += _all_leaves(x)
+        return out
+    return [m]
+
+def _ante_oracle(hi, ops, obs, pred, code, what):
+    out = []
+    for j, b in enumerate(obs):
+        if j == 0 or (b['halt'] and not b['txr']): continue
+        ob = ops['blocks'][j-1]
+        for i, tx in enumerate(ob['txs']):
+            if i >= len(b['txr']): break
+            res = b['txr'][i]
+            if res == 'sdk:32': continue
+            leaves = [lf for m in tx['msgs'] for lf in _all_leaves(m)]
+            hit = any(pred(lf) for lf in leaves)
+            if b['h'] > 1 and hit and res != code:
+                out.append(Viol(hi, b['h'], what + '-not-rejected', f"tx {i} {tx['msgs']} -> {res}"))
+            if not hit and res == code:
+                out.append(Viol(hi, b['h'], what + '-false-rejection', f"tx {i} {tx['msgs']} -> {res}"))
+    return out
+
+def oracle_C07(hi, ops, obs):
+    """full application: a tx with a blocked x/staking message at any depth is rejected with ErrStakingActionNotAllowed above height 1; no other tx is"""
+    return _ante_oracle(hi, ops, obs, lambda m: m.kind == 'STAKING' and int(m.args[0]) < 6, 'poa:1', 'staking-msg')
+
+def oracle_C08(hi, ops, obs):
+    """full application: a tx with WithdrawDelegatorReward at any depth is rejected with the dedicated error above height 1 (unless the staking rule fired first)"""
+    def pred(m): return m.kind == 'WITHDRAW'
+    out = []
+    for v in _ante_oracle(hi, ops, obs, pred, 'poa:5', 'withdraw-msg'):
+        # the staking decorator runs first: poa:1 on a tx that also carries a blocked staking message is fine
+        if v.kind.endswith('not-rejected') and '-> poa:1' in v.detail: continue
+        out.append(v)
+    return out
+
+def oracle_C09(hi, ops, obs):
+    """full application (limiter 0.10..0.50): a tx whose CreateValidator / rate-setting EditValidator is out of range never succeeds; a description-only edit never yields a panic"""
+    out = []
+    lo, hi_ = 10**17, 5 * 10**17
+    for j, b in enumerate(obs):
+        if j == 0 or (b['halt'] and not b['txr']): continue
+        ob = ops['blocks'][j-1]
+        for i, tx in enumerate(ob['txs']):
+            if i >= len(b['txr']): break
+            res = b['txr'][i]
+            leaves = [lf for m in tx['msgs'] for lf in _all_leaves(m)]
+            rates = [int(lf.args[7]) for lf in leaves if lf.kind == 'CREATE'] + [int(lf.args[1]) for lf in leaves if lf.kind == 'EDIT' and lf.args[1] != 'nil']
+            if b['h'] > 1 and any(r < lo or r > hi_ for r in rates) and res == 'ok':
+                out.append(Viol(hi, b['h'], 'out-of-range-rate-accepted', f"tx {i} {tx['msgs']}"))
+            if any(lf.kind == 'EDIT' and lf.args[1] == 'nil' for lf in leaves) and res == 'undefined:111222':
+                out.append(Viol(hi, b['h'], 'edit-without-rate-panics', f"tx {i} {tx['msgs']}"))
+    return out
+
 ORACLES = {
+    'C07': oracle_C07, 'C08': oracle_C08, 'C09': oracle_C09,
     'C01': oracle_C01, 'C02': oracle_C02, 'C03': oracle_C03, 'C04': oracle_C04, 'C05': oracle_C05,
     'C10': oracle_C10, 'C11': oracle_C11, 'C13': oracle_C13, 'C14': oracle_C14, 'C16': oracle_C16, 'C18': oracle_C18,
 }
